@@ -128,9 +128,39 @@ SAMPLES = (
 )
 
 
+def _rule_conv_text(kind, kw):
+    """converter spelled in rule syntax"""
+    if kind == "any":
+        return "any(" + ", ".join('"' + x + '"' for x in kw["items"]) + ")"
+    # min / max do not enter the regex (and a negative bound cannot be written in a rule string)
+    args = ", ".join(f"{k}={v}" for k, v in kw.items() if k not in ("min", "max"))
+    return kind + (f"({args})" if args else "")
+
+
+def _valid_value(kind, kw):
+    """a text the converter's regex accepts"""
+    if kind == "string":
+        if "length" in kw:
+            n = kw["length"]
+        else:
+            n = max(kw.get("minlength", 1), 1)
+        return "ab3456789012"[:n] if n else ""
+    if kind == "int":
+        n = kw.get("fixed_digits", 0) or 2
+        return ("-" if kw.get("signed") else "") + "1234567"[: n - (1 if kw.get("signed") and kw.get("fixed_digits") else 0)]
+    if kind == "float":
+        return ("-" if kw.get("signed") else "") + "1.5"
+    if kind == "any":
+        return kw["items"][0]
+    if kind == "uuid":
+        return "12345678-1234-5678-1234-567812345678"
+    return "a/b"
+
+
 @generator("RoutingSamples")
 def gen_samples():
     conv = importlib.import_module("werkzeug.routing.converters")
+    routing = importlib.import_module("werkzeug.routing")
     rows = []
     for kind, kw in SAMPLES:
         cls = conv.DEFAULT_CONVERTERS[kind]
@@ -139,6 +169,23 @@ def gen_samples():
         else:
             obj = cls(None, **kw)
         rows.append(f"({_conv_term(kind, kw)}, {lean_str(obj.regex)}, {int(obj.weight)}, {lean_bool(obj.part_isolating)})")
+    # anchoring of the compiled part regex (Rule._parse_rule): the live pattern of `/<conv:v><post>` on a
+    # valid value, and on the same text with control characters around it
+    probes = []
+    for kind, kw in SAMPLES:
+        if kind == "any" and not kw["items"]:
+            continue
+        if kind == "string" and kw.get("length") == 0:
+            continue
+        v = _valid_value(kind, kw)
+        for post in ("", ".x"):
+            rule = routing.Rule(f"/<{_rule_conv_text(kind, kw)}:v>{post}", endpoint="e")
+            routing.Map([rule])
+            part = rule._parts[-1]
+            assert not part.static and not part.suffixed
+            pat = re.compile(part.content)
+            for target in (v + post, v + post + "\n", v + "\n" + post, "\n" + v + post, v + post + "\r", v + post + "\x0b", v + post + "\n\n"):
+                probes.append(f"({_conv_term(kind, kw)}, {lean_str(post)}, {lean_str(target)}, {lean_bool(pat.match(target) is not None)})")
     body = f"""import WzVerif.Model.RoutingConv
 namespace Wz.Gen.RoutingSamples
 open Wz.Routing
@@ -146,6 +193,11 @@ open Wz.Routing
 /-- live converter instances: (model term, instance regex, weight, part_isolating). -/
 def samples : List (Conv × String × Nat × Bool) := {lean_list(rows, 1)}
 
+/-- anchoring of the live compiled part regex of `Rule('/<conv:v>' + post)`:
+(converter, literal suffix, target, does `re.compile(part.content).match(target)` succeed). Targets: a
+valid value, and the same with LF / CR / VT appended, LF inserted, LF in front. -/
+def anchorProbes : List (Conv × String × String × Bool) := {lean_list(probes, 1)}
+
 end Wz.Gen.RoutingSamples
 """
-    return write("RoutingSamples", body, "src/werkzeug/routing/converters.py (instantiated converters)")
+    return write("RoutingSamples", body, "src/werkzeug/routing/converters.py, rules.py (instantiated converters, compiled part regexes)")
